@@ -327,6 +327,10 @@ def resolve(case, st, addr, regs):
             tg[s.k] = None
             continue
         s.target = cand[s.tsel % len(cand)]
+        if s.form.rng != "abs" and s.tsel % 5 < 2:
+            # the far ends of the reach (displacement -128 / +127, -16 / +15 when an instruction starts there)
+            far = sorted(cand, key=lambda k: addr[k])
+            s.target = far[0] if s.tsel % 5 == 0 else far[-1]
         tg[s.k] = "S%d" % s.target
         if cpu == "4004" and s.form.name == "jcn" and (addr[s.k] & 0xff) >= 0xfe and s.target > s.k:
             # asl rejected JCN at page offset $FE/$FF to a *forward label* in pass 1 (the unknown symbol is taken
@@ -837,6 +841,20 @@ def fixed_cases(tier):
             segs += [dict(k="code", ins=[[FILLER[cpu], []], [jump, [2 * ((i + 7) % 20)]]]), dict(k="org", gap=1 + i % 3)]
         for load in ("bin", "hex"):
             out.append(dict(mk(cpu, [term]), segs=segs[:-1], load=load, crlf=True))
+    # every relative form at both ends of its reach: one-byte instructions all around, so that an instruction starts at
+    # every address and the far ends of the reach (-128 / +127, -16 / +15) are targets
+    for cpu in ("6800", "87C00", "4004"):
+        term = {"6800": ["rts", []], "87C00": ["ret", []], "4004": ["bbl", [0]]}[cpu]
+        for f in G.FORMS[cpu]:
+            if f.rng not in ("rel8", "rel5"):
+                continue
+            pad = [[FILLER[cpu], []]] * (135 if f.rng == "rel8" else 20)
+            for cond in range(3):
+                lo = canon_vals(f, cond)
+                hi = canon_vals(f, cond)
+                lo[f.slots.index("T")] = 0
+                hi[f.slots.index("T")] = 1
+                out.append(mk(cpu, pad + [[f.name, lo], [f.name, hi]] + pad + [term]))
     T = True
     # regression inputs of the defects found with this check (minimised)
     out.append(mk("6800", [["bcc", [0]], ["rts", []]], entries=[dict(s=0, name=T, vec=None)]))     # named entry
